@@ -29,6 +29,9 @@ static void stub_free(const asn_TYPE_descriptor_t *td, void *p, enum asn_struct_
 void h_SET_OF_decode_uper(void) {
 	VF_SCALAR(int, w);
 	static unsigned char data[2 + VF_NELEMS];
+#ifdef VF_W
+	w = VF_W;
+#endif
 	__CPROVER_assume(w >= 0 && w <= 8);
 	VF_FINDING(VF_FINDING_D5, w >= 1);
 	elem_bits = w;
